@@ -89,6 +89,8 @@ class Minimiser:
             if ops[i]["kind"] != "read" or time.time() > self.deadline:
                 continue
             doc = ops[i]["doc"]
+            if isinstance(doc, dict) and "inline" not in doc:
+                continue   # the output of an earlier write: shrinks only through the set that was written
             text = corpus()[doc[7:]]["text"] if isinstance(doc, str) else doc["inline"]
             lines = text.split("\n")
             n = 2
